@@ -32,6 +32,10 @@ CLAIMED = {
          "Boundary agreement, error collection and termination shape decided on all paths of Visitor and its workers.", "DESIGN.md §2 C10"),
  "C19": ("static analysis: sibling codec agreement (byte-order object, widths, slice bounds, CRC operands extracted from writer and reader SSA and compared), defer-order rule for checksum sampling vs. Close, structural matching of the KV helpers",
          "Writer/reader mirror-image conditions decided structurally, including the never-tested v0 branch and KV helpers.", "DESIGN.md §2 C19"),
+ "C04": ("static analysis: barrier-bracket rule propagated over the VTA call graph (Acquire dominates / Release deferred or post-dominates every structure access; frozen table of caller-holds-the-barrier entry points), freshness/ordering rules for Refresh and GetNode results, who-may-free context table, guard-dominance for the overtaken insert and the winner-only flush",
+         "The lexical discipline that makes the epoch scheme sound is decided on all paths and call sites; use-after-free over schedules is not.", "DESIGN.md §2 C04"),
+ "C07": ("static analysis: ownership rules (allocation consumed on every path, overwrite of the owning store field, error-return release), teardown order by dominance, who-may-free context table, rejected-operation free pairing",
+         "Ownership discipline on every path incl. error paths; F8 (failed restore leaks) is a listed known finding.", "DESIGN.md §2 C07"),
  "C01": ("static analysis: finite-domain decision-table extraction of the visibility predicates (SSA interpreter over epoch orderings), guard-dominance on the collector hand-off, freshness/who-may-write analysis of item headers and payloads, must-precede ordering in NewSnapshot",
          "Necessary structural conditions of snapshot isolation decided on every path and call site of the resolved program (SSA + must-facts + VTA call graph). Not a proof of isolation over all schedules.", "DESIGN.md §2 C01"),
 }
